@@ -350,9 +350,14 @@ class Session:
             self.fixed_now = dict(getattr(self, 'fixed_now', {}), **{nm_: val_})
             for e_ in self.exprs.values():
                 e_.change_init_values({nm_: val_})
-            if nm_ in self.builder.betas:
-                self.builder.betas[nm_].initValue = val_
             self.builder.beta_specs[nm_] = (val_, None, None, 1)
+            if nm_ in self.builder.betas and self.builder.betas[nm_].initValue != val_:
+                # the Beta object exists (it was built for some formula) but the library did not give it the value:
+                # either no built formula contains it any more, or change_init_values ignored the request - the
+                # evaluations that follow tell
+                if not any(nm_ in ref.collect(self.formulas[i_], self.pool)['beta'] or
+                           any(nm_ == b_ for b_, _ in self._linutil_pairs(self.formulas[i_])) for i_ in self.exprs):
+                    self.builder.betas[nm_].initValue = val_
             self.biogemes = []      # objects built earlier hold the value the parameter had at construction
             ctx.log(kind, nm_, val_)
         elif kind == 'COPY_EVAL':
@@ -505,6 +510,22 @@ class Session:
         else:
             raise RuntimeError(kind)
         ctx.state([kind, len(self.formulas), len(self.biogemes), [len(x) for x in self.extra_cols], self.poisoned])
+
+    def _linutil_pairs(self, n):
+        out = []
+        if isinstance(n, list) and n and isinstance(n[0], str):
+            if n[0] == 'linutil':
+                out += n[1]
+            elif n[0] == 'ref':
+                out += self._linutil_pairs(self.pool[n[1]])
+            else:
+                for c_ in n[1:]:
+                    if isinstance(c_, list):
+                        out += self._linutil_pairs(c_)
+                    elif isinstance(c_, dict):
+                        for v_ in c_.values():
+                            out += self._linutil_pairs(v_)
+        return out
 
     def _after_valid(self):
         if self.fault_seen:
